@@ -42,6 +42,7 @@ TraceNext ==
   /\ out'.outs = Rec[l].out.outs
   /\ \A e \in E : ep'[e] = Rec[l].st.ep[e]
   /\ \A e \in E : net'[e] = Rec[l].st.net[e] /\ del'[e] = Rec[l].st.del[e]
+  /\ \A e \in E : NeedsTick(ep'[e]) = Rec[l].st.nt[e]        \* Connection::needs_tick() after the call
   /\ ready' = Rec[l].st.ready
   /\ answered' = Rec[l].st.answered
 
